@@ -1110,6 +1110,7 @@ func main() {
 	}
 	defer r.Finish()
 	logging.SetLogger(lg)
+	hist.Debug = func(s string) { fmt.Println(s) }
 	taskpool.VerifSetPoint(poolHook)
 	timer.VerifSetPoint(timerHook)
 
